@@ -11,13 +11,13 @@ CHECKS = {}
 CHECKS["C15"] = {
     "runs": [
         R("./parser", {"fn": r"^ZZ_C15_P1_scan_n[1-4]$"}, {"fn": r"^ZZ_C15_P1_scan_n[1-6]$"}),
-        R("./parser", {"fn": r"^ZZ_C15_(P2_parse_n[12]|P4a_scan_translation_n[23]|P3_P4b_compose|P4b_compose_sym_(first|second)_n[12])$"},
-                      {"fn": r"^ZZ_C15_(P2_parse_n[123]|P4a_scan_translation_n[234]|P3_P4b_compose|P4b_compose_sym_(first|second)_n[123])$", "wall_timeout": 7200}),
+        R("./parser", {"fn": r"^ZZ_C15_(P2_parse_n[12]|P4a_scan_translation_n[23]|P3_P4b_compose|P4b_compose_sym_(first|second)_n[12]|P4b_compose_stem_(first|second)_n1)$"},
+                      {"fn": r"^ZZ_C15_(P2_parse_n[123]|P4a_scan_translation_n[234]|P3_P4b_compose|P4b_compose_sym_(first|second)_n[123]|P4b_compose_stem_(first|second)_n[12])$", "wall_timeout": 7200}),
     ],
     "expect_asserts": [r"C15\.P1\.invariant-preserved", r"C15\.P1\.position-in-input", r"C15\.P2\.parse-no-panic", r"C15\.P2\.error-position-in-input", r"C15\.P4a\.line-shifted-by-prefix-lines", r"C15\.P3\.same-text-same-tree", r"C15\.P4b\.same-subtrees-with-shifted-positions"],
     "bounds": {
-        "quick": {"scan step: symbolic suffix runes": 4, "prefix shapes": 4, "unseen earlier lines": "symbolic 0..2^30", "ParseSrc totality and error position": "all sources of <= 2 symbolic runes", "scanner translation lemma": "5 prefixes x 2..3 symbolic runes", "parser compositionality": "all ordered pairs of 43 snippets; every text of <= 2 symbolic ASCII runes before or after 2 fixed texts"},
-        "thorough": {"scan step: symbolic suffix runes": 6, "prefix shapes": 4, "unseen earlier lines": "symbolic 0..2^30", "ParseSrc totality": "<= 3 runes", "scanner translation lemma": "up to 4 runes", "parser compositionality": "43 x 43 snippets; every text of <= 3 symbolic ASCII runes before or after 2 fixed texts"},
+        "quick": {"scan step: symbolic suffix runes": 4, "prefix shapes": 4, "unseen earlier lines": "symbolic 0..2^30", "ParseSrc totality and error position": "all sources of <= 2 symbolic runes", "scanner translation lemma": "5 prefixes x 2..3 symbolic runes", "parser compositionality": "all ordered pairs of 43 snippets; every text of <= 2 symbolic ASCII runes before or after 2 fixed texts; every text made of one of 48 stems (the 32 keywords of the scanner's own table, 16 operator / literal / comment openers) followed by 1 symbolic rune, before or after 4 fixed texts"},
+        "thorough": {"scan step: symbolic suffix runes": 6, "prefix shapes": 4, "unseen earlier lines": "symbolic 0..2^30", "ParseSrc totality": "<= 3 runes", "scanner translation lemma": "up to 4 runes", "parser compositionality": "43 x 43 snippets; every text of <= 3 symbolic ASCII runes before or after 2 fixed texts; stems followed by <= 2 symbolic runes"},
     },
     "stubs": ["unicode.IsLetter on symbolic runes: ASCII formula (runes assumed 0..0x7f)", "fmt.Errorf: native formatting, symbolic operands print as <symbolic>"],
     "assumptions": ["symbolic runes are ASCII (0..0x7f); non-ASCII runes only as concrete members", "go/ssa v0.29.0 SSA of /repo is faithful to the compiled code", "z3 5.1.0 answers are sound"],
@@ -38,14 +38,14 @@ CHECKS["C17"] = {
 
 CHECKS["C12"] = {
     "runs": [
-        R("./env", {"fn": r"^ZZ_C12_(values_step|path_step|external_step|copy_step|copy_ext_step|addr_step|types_step_quick)$"},
-                   {"fn": r"^ZZ_C12_(values_step|path_step|external_step|copy_step|copy_ext_step|addr_step|types_step)$"}),
+        R("./env", {"fn": r"^ZZ_C12_(values_step|path_step|external_step|copy_step|copy_ext_step|copy_binding_kinds|addr_step|types_step_quick)$"},
+                   {"fn": r"^ZZ_C12_(values_step|path_step|external_step|copy_step|copy_ext_step|copy_binding_kinds|addr_step|types_step)$"}),
         R("./env", {"fn": r"^ZZ_C12_history3$"}, thorough_only=True),
     ],
     "expect_asserts": [r"C12\.post-state", r"C12\.no-panic/GetEnvFromPath", r"C12\.copy-independent/copy", r"C12\.result/Set"],
     "bounds": {"scopes": "tree of <= 3 scopes in 6 shapes (chain, siblings, module chain, path through a non-module)",
                "names": "pool {a, b} per table; arguments a, b, a.b, n (unbound), int64, string",
-               "values": "symbolic int64 payloads (no bound), modules", "tables": "each values/types map nil or any subset of the pool",
+               "values": "symbolic int64 payloads (no bound), modules; for copies also bindings that are settable cells (the nil binding, DefineValue of an addressable int64 / interface{} cell)", "tables": "each values/types map nil or any subset of the pool",
                "operations": "one call of every exported Env method from the arbitrary state (inductive step); thorough adds all 3-call histories"},
     "stubs": ["sync.RWMutex: engine model", "fmt.Errorf/Sprintf: native formatting"],
     "assumptions": ["representation invariant: maps may be nil, parent links form a tree, tables hold no dotted names",
@@ -146,7 +146,7 @@ CHECKS["C08"] = {
 
 CHECKS["C09"] = {
     "corpus": True,
-    "runs": [R("./vm", {"fn": r"^ZZ_C09_(try_defer_(d1|d2_lite|d1_text)|throw_values)$"}, {"fn": r"^ZZ_C09_(try_defer_(d1|d2_b2|d1_text|d2_text_lite)|throw_values)$", "wall_timeout": 10000})],
+    "runs": [R("./vm", {"fn": r"^ZZ_C09_(try_defer_(d1|d2_lite|d1_text)|throw_values|defer_call_shapes)$"}, {"fn": r"^ZZ_C09_(try_defer_(d1|d2_b2|d1_text|d2_text_lite)|throw_values|defer_call_shapes)$", "wall_timeout": 10000})],
     "expect_asserts": [r"C09\.probe-trace", r"C09\.error-status", r"C09\.throw/nothing-runs-after-the-throw/.*"],
     "bounds": {"quick": "as C08 plus try/catch/finally with outcomes normal/error in finally and functions with 0..2 deferred probe calls, one of which may fail; `throw v` for 15 thrown values (empty and blank strings, nil, numbers, booleans, containers, an error with an empty message, computed empty strings) at top level, in a try, in a called function, in a loop",
                "thorough": "depth 2 with <= 2 compound statements"},
